@@ -33,6 +33,15 @@ func main() {
 		generate(os.Args[2], os.Args[3], seed, w)
 	case "run":
 		runAll()
+	case "corpus":
+		// harness corpus <dir> <property>: cases from a go-fuzz corpus directory
+		if len(os.Args) < 4 {
+			fmt.Fprintln(os.Stderr, "usage: harness corpus <dir> <property>")
+			os.Exit(2)
+		}
+		w := bufio.NewWriterSize(os.Stdout, 1<<20)
+		defer w.Flush()
+		corpusCases(os.Args[2], os.Args[3], w)
 	default:
 		fmt.Fprintln(os.Stderr, "unknown mode")
 		os.Exit(2)
